@@ -1,4 +1,6 @@
 import MW.Inv.GReach
+import MW.Inv.WorldInv
+import MW.Inv.Demo
 /-!
 # C01 — Staked-asset accounting is fully backed
 
@@ -8,9 +10,11 @@ import MW.Inv.GReach
 totals, so the equation carries the explicit re-basing term `rebaseN` (zero until the first
 resume with non-matching totals): full strength, not "no resume".
 
-Not proved here (monitored on the implementation on every run instead, see DESIGN.md §6 C01):
-that `fwd` equals delivered + in flight + refundable on the chain ledgers, and the honest-operator
-corollary about the staker's holdings — `C01_located_partial` states what is proved of it.
+Where the forwarded tokens are is a statement about the chain's ledgers: `C01_located` proves, for
+every history of the chain model that satisfies the honest-environment conditions (DESIGN.md §12),
+that everything forwarded toward the staker is in flight to it, delivered to it, or refunded and
+still earmarked for re-send to it.  Not proved: the corollary about the staker's own holdings on
+the native chain (what the staker does with delivered tokens is outside the model).
 -/
 namespace MW.Props.C01
 open MW MW.Staking
@@ -100,10 +104,9 @@ theorem recover_leaves_totals (s s' : CState) (env : Env) (info : Info) (sel : O
   obtain ⟨_, _, _, _, _, _, _, _, _, _, _, _, _, _, hs', _⟩ := recover_eff h
   subst hs'; exact ⟨rfl, rfl, rfl⟩
 
-/-- what is proved about *where* the forwarded tokens are: every first-time forward is one
-reply-always transfer sub-message whose reply records a packet of exactly that amount for the
-staker (so the amount is tracked until its success acknowledgement) -/
-theorem C01_located_partial (s s' : CState) (env : Env) (id seq : Nat) (coin : Coin) (recv : String)
+/-- every first-time forward is one reply-always transfer sub-message whose reply records a packet of
+exactly that amount for the staker (so the amount is tracked until its success acknowledgement) -/
+theorem reply_tracks_forward (s s' : CState) (env : Env) (id seq : Nat) (coin : Coin) (recv : String)
     (out : List SubMsg) (hw : s.waiting.find? id = some { coin := coin, receiver := recv })
     (h : reply s id (.ok seq) = .ok (s', out)) :
     s'.inflight.find? seq = some { seq := seq, coin := coin, receiver := recv, status := .sent } := by
@@ -112,6 +115,29 @@ theorem C01_located_partial (s s' : CState) (env : Env) (id seq : Nat) (coin : C
   rw [hw] at hw'; cases hw'
   subst hs'
   simp [AMap.find?_insert]
+
+open MW.Chain in
+/-- **F1 (located), every history.**  Along every history of the chain model that satisfies the
+honest-environment conditions, the staked asset forwarded toward the staker by stakes and (net)
+rewards equals what the chain holds in flight to the staker or has delivered to it, plus what was
+refunded to the contract and is still earmarked for re-send to the staker.  Nothing forwarded is
+ever lost, duplicated or redirected — in particular a permissionless recovery can only re-send a
+refunded amount to the receiver it was addressed to -/
+theorem C01_located {env : Env} {info : Info} {msg : InstantiateMsg} {c0 : CState} {out : List SubMsg}
+    (hi : instantiate env info msg = .ok (c0, out)) (self pfx : String) (t hgt : Nat) (evs : List Event)
+    (hok : AllOK (bootWorld c0 self pfx t hgt) evs) :
+    let r := runW (bootWorld c0 self pfx t hgt) {} evs
+    locW r.1.c.config.native.staker r.1.c.config.proto.ibcDenom r.1.pkts
+      + locC r.1.c.config.native.staker r.1.c.config.proto.ibcDenom r.1.c = r.2.fwd :=
+  (world_history_winv hi self pfx t hgt evs hok).f1
+
+/-! non-vacuity of `C01_located`: the demo history (two stakes, a refund and recovery of an LST packet,
+rewards) satisfies the conditions; 3900 forwarded, 3900 in flight to the staker -/
+section Demo
+open MW.Chain MW.Chain.Demo
+#guard (demoBoot.map fun w => allOKb w demoEvents) == some true
+#guard (demoBoot.map fun w => let r := runW w {} demoEvents; (summary r.1 r.2).drop 10) == some [3900, 3900, 0]
+end Demo
 
 /-- non-vacuity: totals 0/0, a stake of 1000 forwards 1000 and the equation reads 1000 = 1000 -/
 example : (1000 : Int) + 0 + 0 = 1000 + 0 := by decide
